@@ -1,7 +1,7 @@
 --------------------------------- MODULE TraceLinalg ---------------------------------
 (* Trace validation of the factorisation events (C10 Inverse, C11 LU, C12 Solve, C13 QR).          *)
 (* One event per case, joined over the configurations that executed it:                             *)
-(*   in   = [T, strategy, form, pk, rhs, fam, d, v, need, mat, n, nb, sA, A (, k, B)]               *)
+(*   in   = [T, strategy, form, pk, rhs, fam, d, v, need, mat, n, nb, sA, A (, k, B for Solve)]     *)
 (*   outs = << [cfg, isa, out |-> [...]] ... >>                                                      *)
 (* Decided by TLC's own arithmetic on the logged integers: shapes; structure of the factors (entry    *)
 (* classes Lc/Uc/Rc); bijectivity of the returned permutation in the encoding that was requested;      *)
@@ -25,8 +25,8 @@ InverseOK(x, r) ==
 \* the permutation returned in the requested encoding is a bijection, and `perm` (what the residual routine used) is its decoding
 PermOK(x, r) ==
     CASE x.pk = "none" -> r.P = <<>> /\ r.perm = Iota(x.n)
-      [] x.pk = "V" -> r.pok = 1 /\ IsBijectionV(r.P, x.n) /\ r.perm = r.P
-      [] x.pk = "M" -> r.pok = 1 /\ IF IsBijectionM(r.P, x.n) THEN r.perm = PermOfMatrix(r.P, x.n) ELSE FALSE
+      [] x.pk = "V" -> r.pok = 1 /\ IsBijection(r.P, x.n, "V") /\ r.perm = r.P
+      [] x.pk = "M" -> r.pok = 1 /\ IF IsBijection(r.P, x.n, "M") THEN r.perm = PermOfMatrix(r.P, x.n) ELSE FALSE
 
 \* ---- C11 --------------------------------------------------------------------------------------
 LUOK(x, r) ==
